@@ -158,7 +158,12 @@ POSITIONS = ["stmt", "decl_rhs", "assign_rhs", "opassign_rhs", "arg", "arg2", "c
              # less usual hosts of an expression
              "obj_spread", "pattern_key", "range_assign_end", "range_assign_rhs", "method_arg", "slot_second", "slot_nested", "slot_in_key",
              "for_target_index", "arg_after_spread", "callee_of_call", "prop_target_base", "opassign_target_idx", "list_pattern_elem_src", "rest_call_arg",
-             "dotdot_rhs", "len_base", "eq_in_list", "for_iter_call", "return_in_loop", "elseif_third", "obj_name_slot"]
+             "dotdot_rhs", "len_base", "eq_in_list", "for_iter_call", "return_in_loop", "elseif_third", "obj_name_slot",
+             "range_base", "range_base_open", "range_of_range", "discard_assign", "index_of_index", "prop_of_call"]
+
+
+def e2(e):
+    return A.clone(e)
 
 
 def place(e, position, rng, in_fn):
@@ -277,6 +282,18 @@ def place(e, position, rng, in_fn):
         if in_fn:
             return body, False
         return [A.FuncStmt("tretl", [], False, body), A.pr(A.call("tretl"))], False
+    if P == "range_base":
+        return [A.pr(A.RangeIndex(A.Paren(e), I(0), I(3)))], False
+    if P == "range_base_open":
+        return [A.pr(A.RangeIndex(A.Paren(e), I(1), None))], False
+    if P == "range_of_range":
+        return [A.pr(A.RangeIndex(A.RangeIndex(A.Paren(e), I(1), None), I(0), I(2)))], False
+    if P == "discard_assign":
+        return [A.Assign(V("_"), e), A.Declare(A.lst(V("_"), V("_")), _lst(e2(e), I(0)))], False
+    if P == "index_of_index":
+        return [A.pr(A.Index(A.Index(_lst(A.Paren(e)), I(0)), I(0)))], False
+    if P == "prop_of_call":
+        return [A.pr(A.Prop(A.call("ident", e), "a", False))], False
     if P == "elseif_third":
         return [A.If([(A.Bool(False), []), (A.Bin("==", V("n"), I(-1)), [A.pr(S("no"))]), (e, [A.pr(S("then"))])], [A.pr(S("else"))])], False
     raise ValueError(P)
@@ -361,6 +378,8 @@ def ok_exprs():
     E["call_returning_list"] = (lambda: A.call("ident", V("xs")), "C14 C05")
     E["rest_call"] = (lambda: A.Call(V("fr"), [(I(0), False), (V("xs"), True)]), "C14 C13")
     E["method"] = (lambda: A.Call(A.Prop(V("ob"), "get", False), []), "C14")
+    E["method_two_dots"] = (lambda: A.Call(A.Prop(A.Prop(V("ob"), "inner", False), "get", False), []), "C14 C12")
+    E["slice_of_slice"] = (lambda: A.RangeIndex(A.RangeIndex(V("xs"), I(1), None), I(0), I(1)), "C11")
     E["method_two_steps"] = (lambda: A.Call(A.Prop(A.Index(V("ob"), S_("inner")), "get", False), []), "C14 C12")
     E["counter_closure"] = (lambda: A.call("nextc"), "C04 C14 C05")
     E["printing_call"] = (lambda: A.call("tick", I(1)), "C07 C14 C17")
